@@ -7,7 +7,7 @@ DUTs (real luna classes, domain "ss"), one harness per case:
   link : USB3LinkLayer on a stub physical layer (a bundle of signals); a link-partner model written for this check plays
          LFPS, TS1/TS2, the idle handshake, the header sequence / credit advertisement, acknowledges (or rejects, LBAD) the
          DUT's header packets and sends header packets of its own, while the testbench offers header packets and data
-         packets (4..1024 bytes) on the protocol side: TSEQ, TS1, TS2, link commands (LGOOD/LCRD/LUP/LRTY), header
+         packets (0..1024 bytes: zero-length, lengths that end in a partial word, full words) on the protocol side: TSEQ, TS1, TS2, link commands (LGOOD/LCRD/LUP/LRTY), header
          packets, data packet payloads and retries appear on the transmit stream, with streams of different arbiter inputs
          back to back.  Warm resets during equaliser training restart the bring-up.  To reach U0 in a short case the
          harness constructs the TSEQ emitter with a burst of 40 ordered sets instead of 65536 (constructor argument
@@ -20,7 +20,8 @@ but are not permitted (all-zero data inside a packet, `valid`=0 filler), header-
 bursts of tagged symbols (1..266 words; lengths chosen so that the 354-symbol boundary is crossed on the last word of a
 burst, on the first idle word, and on a word that is being replaced), COM-led words, backlogs of 2..6 owed sets drained
 through single idle words, mostly-idle sessions of 5k-8k words, sessions in which bursts outrun the idle time
-(backlog >= 8 sets), scrambling on/off.
+(backlog >= 8 sets), scrambling on/off, and electrical idle in the middle of the stream (1..400 cycles, after a burst with a
+backlog, inside a permitted idle run, with `can_send_skp` offered or not meanwhile) followed by a new sync word.
 
 Oracle (written from the statement and USB 3.2 6.4.3 / appendix B; rv/ref/c31_lfsr.py is the bit-serial LFSR of the
 specification, self-tested on the TSEQ vector): the word on the PHY pins `lat` cycles after a word was accepted from the link
@@ -51,9 +52,16 @@ quick tier (shortened TSEQ burst); `can_send_skp` is not compared with the arbit
 source, e.g. `~arbiter.source.valid`, keeps the property) but with the framing of the offered stream; `arbiter.idle` is
 observed through the registry for coverage only.
 
-Not judged: the stream before the sync word (start-up of the registered `ready`); `tx_electrical_idle` is held low after the
-start-up in the phy harness; cycles in which the physical layer would not accept a word (never happens in luna; the case is
-then counted as unjudged from that point); COM in symbols 1..3 and COM followed by data symbols (C31); what the receiver
+Back-pressure: if the layer does not take a word in some cycle (outside electrical idle today's luna always does), the slot
+on the pins that belongs to that cycle may only carry a SKP word, and only while the waiting word is permitted logical idle
+(`word_transmitted_while_link_stalled`, `skp_inserted_while_non_idle_word_waits`); the stream after the stall is judged as
+before.  Electrical idle: words whose slot falls into an episode, and everything up to the next COM-led sync word accepted
+after the transmitter is on again, are not judged (nothing is transmitted; luna repeats the waiting word on the pins when it
+resumes, which the statement does not cover); from that sync word on everything is judged again.  The "too few" side of the
+rate restarts with each switch-on (the statement does not say whether a backlog survives electrical idle), the "too many"
+side counts all symbols and sets since the first switch-on with 2 more words of allowance per episode.
+
+Not judged: the stream before the first sync word (start-up of the registered `ready`); COM in symbols 1..3 and COM followed by data symbols (C31); what the receiver
 does (C32); in the link harness: whether idle time is granted while the transmitter is in electrical idle, packets cut
 short or not by a change of link state (the words are not classified until the next start-of-packet word or permitted idle
 word), the compliance pattern.
@@ -76,11 +84,11 @@ REQUIRED_BINS = ["mode_phy", "mode_link", "scrambling_on", "scrambling_off",
                  "link_u0_reached", "link_u0_link_command", "link_u0_header_packet", "link_u0_data_payload", "link_u0_partner_header",
                  "link_filler_run_of_one_word",
                  "electrical_idle_mid_stream", "electrical_idle_with_backlog", "electrical_idle_during_permitted_idle",
-                 "resync_after_electrical_idle", "rate_judged_beyond_40_sets"]
+                 "resync_after_electrical_idle", "rate_judged_beyond_40_sets", "link_u0_zlp_requested", "link_u0_partial_last_word"]
 REQUIRED_EVENTS = ["phy_words_compared", "phy_data_symbols_descrambled", "skp_words", "skp_sets_owed_checks", "idle_words_replaced",
                    "idle_words_kept", "scrambler_hold_cycles", "inserter_sending_skip_cycles",
                    "link_cycles_monitored", "link_can_send_skp_cycles", "link_packet_words", "link_filler_words"]
-ASSUMPTIONS = ["phy harness: tx_electrical_idle is low from the start-up on; the stream before the COM-led sync word is not judged",
+ASSUMPTIONS = ["phy harness: the stream before the first COM-led sync word, and between the start of an electrical idle episode and the next sync word, is not judged",
                "SKP sets are counted against all symbols on the PHY pins (SKP symbols included) with a phase allowance of 4 words",
                "the link stream never contains K28.1, COM only in symbol 0 of an all-control word",
                "link harness: TSEQ burst shortened to 40 ordered sets by a harness-side constructor override (thorough: also unmodified)",
@@ -1149,7 +1157,7 @@ def bring_up_to_u0(rng, res, b, stub, link, plan):
         rxq.extend([(0, 0)] * rng.randint(0, 4))
         rxq.extend(U.link_command_words(LCRD, sub))
     state = {"mode": None, "hdr": [], "acks": [], "credit": 0, "dut_credits": 0, "dut_next_seq": None, "my_seq": 0,
-             "hp_pending": False, "dp_words": None, "ignore_until_lrty": False}
+             "hp_pending": False, "dp_words": None, "ignore_until_lrty": False, "zlp": False, "dp_mask": 0xF}
     t_end = plan["u0_cycles"]
 
     def parse_sink():
@@ -1227,18 +1235,32 @@ def bring_up_to_u0(rng, res, b, stub, link, plan):
                 b.set(link.data_sink.last, 0)
                 state["dp_words"] = None
             else:
-                b.set(link.data_sink.valid, 0xF)
+                b.set(link.data_sink.valid, state["dp_mask"] if left == 1 else 0xF)
                 b.set(link.data_sink.payload, rng.getrandbits(32) if rng.random() < 0.9 else 0)
                 b.set(link.data_sink.first, 1 if left == total else 0)
                 b.set(link.data_sink.last, 1 if left == 1 else 0)
                 state["dp_words"] = (left, total)
+        elif state["zlp"]:
+            b.set(link.data_sink_send_zlp, 0)
+            state["zlp"] = False
+        elif 0.013 <= r < 0.0145:
+            # zero-length data packet: header with length 0 and an empty payload
+            b.set(link.data_sink_sequence_number, rng.randrange(32))
+            b.set(link.data_sink_endpoint_number, rng.randrange(1, 16))
+            b.set(link.data_sink_send_zlp, 1)
+            state["zlp"] = True
+            res.bin("link_u0_zlp_requested")
         elif 0.01 <= r < 0.013:
-            nwords = rng.choice([1, 16, 128, 256])
-            b.set(link.data_sink_length, 4 * nwords)
+            nwords = rng.choice([1, 1, 2, 16, 128, 256])
+            tail = rng.choice([4, 4, 1, 2, 3])                 # bytes in the last word
+            state["dp_mask"] = (1 << tail) - 1
+            if tail != 4:
+                res.bin("link_u0_partial_last_word")
+            b.set(link.data_sink_length, 4 * (nwords - 1) + tail)
             b.set(link.data_sink_sequence_number, rng.randrange(32))
             b.set(link.data_sink_endpoint_number, rng.randrange(1, 16))
             b.set(link.data_sink_direction, 1)
-            b.set(link.data_sink.valid, 0xF)
+            b.set(link.data_sink.valid, state["dp_mask"] if nwords == 1 else 0xF)
             b.set(link.data_sink.payload, rng.getrandbits(32))
             b.set(link.data_sink.first, 1)
             b.set(link.data_sink.last, 1 if nwords == 1 else 0)
